@@ -111,7 +111,7 @@ def rule_authors(program, ctx):
     sites = {
         "SQL": program.func("nostr_relay.storage.db:Subscription.evaluate_filter"),
         "LMDB": program.func("nostr_relay.storage.kv:compile_match_from_query"),
-        "live": program.func("nostr_relay.storage.base:BaseSubscription.check_event"),
+        "live": __import__("sa.lib", fromlist=["live_matcher"]).live_matcher(program)[0],
     }
     has = {}
     where = {}
@@ -132,7 +132,7 @@ def rule_authors(program, ctx):
         yes = [k for k, v in has.items() if v]
         for k, v in has.items():
             if not v:
-                ctx.bad(finding_at(P, rid, where[k], f"the {k} matcher's authors clause ignores the NIP-26 delegation tag while {', '.join(yes)} honour it: a delegated event is "
+                ctx.bad(finding_at(P, rid, where[k], label=f"{k} authors clause ignores delegation", message=f"the {k} matcher's authors clause ignores the NIP-26 delegation tag while {', '.join(yes)} honour it: a delegated event is "
                                    f"{'returned by one backend / pushed live but not by this one' }", text="authors"))
             else:
                 ctx.ok(rid, where[k], f"{k}: authors clause consults the delegation tag")
@@ -282,7 +282,7 @@ def run(program, ctx):
             if any(isinstance(n, ast.Name) and n.id == "limit" for n in ast.walk(st.value)):
                 ctx.ok(ridc, st, "limit accumulates over the filters")
             else:
-                ctx.bad(finding_at(P, ridc, st, "`limit` is re-assigned per filter (last filter wins): a filter whose matching events are fewer than its own limit is still truncated "
+                ctx.bad(finding_at(P, ridc, st, label="REQ-wide LIMIT is last-filter-wins", message="`limit` is re-assigned per filter (last filter wins): a filter whose matching events are fewer than its own limit is still truncated "
                                    "to the last filter's limit, so not every matching event is delivered"))
     rule_authors(program, ctx)
     rule_layout(program, ctx)
